@@ -9,5 +9,6 @@ INIT Init
 NEXT Next
 INVARIANT Law1
 INVARIANT Law2
+INVARIANT Law3Wired
 INVARIANT Witness
 CHECK_DEADLOCK FALSE
